@@ -103,7 +103,7 @@ def judgeDial (d : DictRt) (R cfgK wf : Nat) (behTok postTok : String) (impl : L
     match implCer.splitOn ")[" with
     | [h, _] => h ++ ")" ++ showAVPs ((decodeAVPs (dfn.avpType 0) ((encL cerAVPs).length + 1) (encL cerAVPs)) |> fun r => match r with | .ok as => as | _ => cerAVPs)
     | _ => "?"
-  let modelOut := s!"out={outClass} cers={sEnd.cers} same=1 gap={gap} closed={closed} post={postOut} cer={cerModel}"
+  let modelOut := s!"out={outClass} cers={sEnd.cers} same=1 gap={gap} closed={closed} pre=0 post={postOut} cer={cerModel}"
   Id.run do
     let mut fails : List String := []
     let iOut := (kv impl "out").getD ""
@@ -111,6 +111,7 @@ def judgeDial (d : DictRt) (R cfgK wf : Nat) (behTok postTok : String) (impl : L
     let iClosed := (kvNat impl "closed").getD 0
     let iPost := (kv impl "post").getD "-"
     if impl.headD "" = "hang" then fails := fails ++ ["C12:dial-never-returns"]
+    if (kvNat impl "pre").getD 0 > 0 then fails := fails ++ ["C10:application-handler-ran-before-handshake"]
     if iCers > R + 1 then fails := fails ++ ["C12:more-cers-than-budget"]
     if (kv impl "same").getD "1" ≠ "1" then fails := fails ++ ["C12:retransmitted-cer-differs"]
     if (kv impl "gap").getD "na" = "short" then fails := fails ++ ["C12:retransmission-before-interval"]
